@@ -3,7 +3,7 @@
 // Memfs operations over the MemfsGuard shim: every operation is verified against (a) the representation invariant wf
 // (property C03), (b) a reference transition written from the trait documentation (C01) including failure atomicity,
 // (c) the symlink laws (C10).  All path arguments reach the state only through _abs (C05 part 2).
-//@ prelude base errors io path_abs memfs_state
+//@ prelude base errors io iter path_abs memfs_state
 
 //@ struct file=src/sys/fs/memfs/file.rs name=MemfsFile
 //@ endstruct
@@ -971,5 +971,228 @@ pub fn append_all(fs: &Memfs, guard: &mut MemfsGuard, path: &PathBuf, data: &[u8
                 &&& (r is Ok) ==> s1.files.contains_key(a->Some_0) && final(guard).st() == put(s1, a->Some_0, s1.files[a->Some_0].data + data@)     //@ clause append_all.extends_and_frame [C06,C01]
                 &&& wf(final(guard).st()) || parent_is_link(s0, a->Some_0)                                                   //@ clause append_all.wf_preserved [C03]
             })
+        }),
+//@ body
+
+// =====================================================================================================================
+// mkdir_p / mkdir_m: create every missing component of abs(path) as a directory, top down
+pub open spec fn dir_entry(p: PathV, mode: Option<u32>) -> EntryV {
+    let m0 = kind_mode(false, false, false, mode);
+    EntryV { path: p, path_ok: true, alt: Seq::<Comp>::empty(), rel: Seq::<Comp>::empty(), dir: true, file: false, link: false,
+             mode: kind_mode(false, false, true, if m0 == 0 { None } else { Some(m0) }), uid: 1000, gid: 1000, follow: false, cached: false,
+             kids: Some(Set::<Name>::empty()) }
+}
+pub open spec fn mk_all(s: St, a: PathV, mode: Option<u32>, j: nat) -> St decreases j {
+    if j == 0 { s } else { spec_add_st(mk_all(s, a, mode, (j - 1) as nat), dir_entry(a.take(j as int), mode)) }
+}
+pub open spec fn mk_err(s: St, a: PathV, mode: Option<u32>, j: nat) -> Option<ErrKind> decreases j {
+    if j == 0 { None } else {
+        match mk_err(s, a, mode, (j - 1) as nat) { Some(e) => Some(e), None => spec_add_err(mk_all(s, a, mode, (j - 1) as nat), dir_entry(a.take(j as int), mode)) }
+    }
+}
+// the error (if any) of creating component j after components 1..j-1 were created
+pub open spec fn step_err(s: St, a: PathV, mode: Option<u32>, j: nat) -> Option<ErrKind> {
+    spec_add_err(mk_all(s, a, mode, (j - 1) as nat), dir_entry(a.take(j as int), mode))
+}
+// no component on the way is an existing symlink (outside the known finding add-under-symlink-parent)
+pub open spec fn no_link_prefix(s: St, a: PathV) -> bool {
+    forall|j: int| 0 <= j < a.len() ==> !(s.entries.contains_key(#[trigger] a.take(j)) && s.entries[a.take(j)].link)
+}
+pub open spec fn links_from(st: St, s0: St) -> bool {
+    forall|p: PathV| st.entries.contains_key(p) && #[trigger] st.entries[p].link ==> s0.entries.contains_key(p) && s0.entries[p].link
+}
+
+//@ item _mkdir_m file=src/sys/fs/memfs/vfs.rs block="impl Memfs" fn=_mkdir_m props=C01,C03,C12
+//@ sig fn _mkdir_m(&self, guard: &mut MemfsGuard, abs: &Path, mode: Option<u32>) -> RvResult<()>
+//@ rw R3 1 for
+//@ rw R11 1 ⟦self._add(guard, MemfsEntry::opts(&path).mode(mode).build())?;⟧ => ⟦_add(guard, MemfsEntry::opts(&path).mode(mode).build())?;⟧
+//@ ins after ⟦let mut path = PathBuf::new();⟧
+        let ghost s0 = guard.st();
+        let ghost a = abs@;
+        let ghost mut k: int = 0;
+        proof { abs.ax_abs(); }
+//@ endins
+//@ loop 1
+            invariant
+                s0 == old(guard).st(), a == abs@, abs.abs_clean(), abs.comps() == abs_comps(a), wf(s0), no_link_prefix(s0, a),
+                0 <= k <= a.len() + 1,
+                __it1.rest().len() == a.len() + 1 - k,
+                forall|i: int| 0 <= i < __it1.rest().len() ==> (#[trigger] __it1.rest()[i])@ == abs_comps(a)[k + i],
+                k == 0 ==> path.comps().len() == 0 && guard.st() == s0,
+                k > 0 ==> path.abs_clean() && path@ == a.take(k - 1) && guard.st() == mk_all(s0, a, mode, (k - 1) as nat)
+                          && mk_err(s0, a, mode, (k - 1) as nat) is None,
+                wf(guard.st()), links_from(guard.st(), s0),
+            ensures
+                k == a.len() + 1,
+            decreases a.len() + 1 - k
+//@ endloop
+//@ ins after ⟦path.push(component);⟧
+            proof {
+                k = k + 1;
+                if k > 1 {
+                    assert(a.take(k - 2).push(a[k - 2]) =~= a.take(k - 1));
+                    assert(a.take(k - 1).drop_last() =~= a.take(k - 2));
+                    // the parent of the path about to be added is not a link
+                    assert(!parent_is_link(guard.st(), a.take(k - 1))) by {
+                        if guard.st().entries.contains_key(a.take(k - 2)) && guard.st().entries[a.take(k - 2)].link { assert(s0.entries[a.take(k - 2)].link); }
+                    }
+                }
+            }
+            let ghost st_before = guard.st();
+            proof {
+                if k > 1 {
+                    let j: nat = (k - 1) as nat;
+                    assert(st_before == mk_all(s0, a, mode, (j - 1) as nat));
+                    assert(step_err(s0, a, mode, j) == spec_add_err(st_before, dir_entry(a.take(k - 1), mode)));
+                }
+            }
+//@ endins
+pub fn _mkdir_m(guard: &mut MemfsGuard, abs: &PathBuf, mode: Option<u32>) -> (r: RvResult<()>)
+    requires wf(old(guard).st()), abs.abs_clean(), no_link_prefix(old(guard).st(), abs@),
+    ensures
+        wf(final(guard).st()),                                                                                        //@ clause mkdir.wf_preserved [C03]
+        ({
+            let s0 = old(guard).st();
+            let a = abs@;
+            &&& r is Ok ==> mk_err(s0, a, mode, a.len()) is None && final(guard).st() == mk_all(s0, a, mode, a.len())     //@ clause mkdir.creates_each_missing_component [C01]
+            &&& r is Err ==> exists|j: nat| 1 <= j <= a.len() && mk_err(s0, a, mode, (j - 1) as nat) is None
+                    && #[trigger] step_err(s0, a, mode, j) == Some(r->Err_0.kind)
+                    && final(guard).st() == mk_all(s0, a, mode, (j - 1) as nat)                                        //@ clause mkdir.error_is_first_failing_component [C01]
+        }),
+//@ body
+
+// ---- failure atomicity of mkdir: an error at component j means nothing was created before it
+// a path that exists has all its prefixes (wf: every entry's parent exists)
+pub proof fn lemma_prefix_exists(s: St, q: PathV, n: int)
+    requires wf(s), s.entries.contains_key(q), 0 <= n <= q.len()
+    ensures s.entries.contains_key(q.take(n))
+    decreases q.len() - n
+{
+    if n == q.len() { assert(q.take(n) =~= q); } else {
+        assert(entry_ok(s, q));
+        let d = q.drop_last();
+        assert(d.take(n) =~= q.take(n));
+        lemma_prefix_exists(s, d, n);
+    }
+}
+//@ obligation lemma_prefix_exists props=C01,C03
+// state of the walk after m components: either nothing was created yet, or the deepest component a.take(m) is a fresh
+// directory below which nothing exists
+pub open spec fn walk_ok(s0: St, a: PathV, mode: Option<u32>, m: nat) -> bool {
+    let s = mk_all(s0, a, mode, m);
+    &&& wf(s) && links_from(s, s0)
+    &&& s.entries.contains_key(a.take(m as int)) && s.entries[a.take(m as int)].dir
+    &&& (s == s0 || forall|q: PathV| q.len() > m && #[trigger] q.take(m as int) == a.take(m as int) ==> !s.entries.contains_key(q))
+}
+pub proof fn lemma_walk(s0: St, a: PathV, mode: Option<u32>, m: nat)
+    requires wf(s0), no_link_prefix(s0, a), m <= a.len(), mk_err(s0, a, mode, m) is None
+    ensures walk_ok(s0, a, mode, m)
+    decreases m
+{
+    if m == 0 {
+        assert(a.take(0) =~= root());
+    } else {
+        let m1 = (m - 1) as nat;
+        lemma_walk(s0, a, mode, m1);
+        let s = mk_all(s0, a, mode, m1);
+        let p = a.take(m as int);
+        let d = a.take(m1 as int);
+        let e = dir_entry(p, mode);
+        assert(p.drop_last() =~= d);
+        assert(d.push(p.last()) =~= p);
+        assert(!parent_is_link(s, p)) by { if s.entries.contains_key(d) && s.entries[d].link { assert(s0.entries[d].link); } }
+        lemma_add_wf(s, e);
+        let s2 = spec_add_st(s, e);
+        assert(links_from(s2, s0));
+        if s.entries.contains_key(p) {
+            // nothing created at this step
+            if s != s0 { assert(p.take(m1 as int) =~= d); }
+        } else {
+            assert forall|q: PathV| q.len() > m && #[trigger] q.take(m as int) == p implies !s2.entries.contains_key(q) by {
+                if s.entries.contains_key(q) { lemma_prefix_exists(s, q, m as int); }
+                if q == d { }
+            }
+        }
+    }
+}
+//@ obligation lemma_walk props=C01,C03
+pub proof fn lemma_mkdir_atomic(s0: St, a: PathV, mode: Option<u32>, j: nat)
+    requires wf(s0), no_link_prefix(s0, a), 1 <= j <= a.len(), mk_err(s0, a, mode, (j - 1) as nat) is None, step_err(s0, a, mode, j) is Some
+    ensures mk_all(s0, a, mode, (j - 1) as nat) == s0      //@ clause mkdir.failure_atomic [C01]
+{
+    let m1 = (j - 1) as nat;
+    lemma_walk(s0, a, mode, m1);
+    let s = mk_all(s0, a, mode, m1);
+    let p = a.take(j as int);
+    assert(p.drop_last() =~= a.take(m1 as int));
+    if s != s0 { assert(p.take(m1 as int) =~= a.take(m1 as int)); }
+}
+//@ obligation lemma_mkdir_atomic props=C01
+
+pub proof fn lemma_mk_err_mono(s0: St, a: PathV, mode: Option<u32>, j: nat, n: nat)
+    requires j <= n, mk_err(s0, a, mode, j) is Some
+    ensures mk_err(s0, a, mode, n) is Some
+    decreases n - j
+{
+    if j < n { lemma_mk_err_mono(s0, a, mode, j, (n - 1) as nat); }
+}
+//@ obligation lemma_mk_err_mono props=C01
+pub proof fn lemma_mkdir_err(s0: St, a: PathV, mode: Option<u32>, j: nat)
+    requires wf(s0), no_link_prefix(s0, a), 1 <= j <= a.len(), mk_err(s0, a, mode, (j - 1) as nat) is None, step_err(s0, a, mode, j) is Some
+    ensures mk_all(s0, a, mode, (j - 1) as nat) == s0, mk_err(s0, a, mode, a.len()) is Some
+{
+    lemma_mkdir_atomic(s0, a, mode, j);
+    assert(mk_err(s0, a, mode, j) is Some);
+    lemma_mk_err_mono(s0, a, mode, j, a.len());
+}
+//@ obligation lemma_mkdir_err props=C01
+
+//@ item mkdir_p file=src/sys/fs/memfs/vfs.rs block="impl VirtualFileSystem for Memfs" fn=mkdir_p props=C01,C03,C05,C12
+//@ rw R11 1 ⟦let mut guard = self.write_guard();⟧ => ⟦⟧
+//@ rw R11 1 ⟦self._abs(&guard, path)?⟧ => ⟦_abs(guard, path)?⟧
+//@ rw R11 1 ⟦self._mkdir_m(&mut guard, &abs, None)?;⟧ => ⟦_mkdir_m(guard, &abs, None)?;⟧
+//@ ins after ⟦_abs(guard, path)?;⟧
+        let ghost s0 = guard.st();
+        proof { assert forall|j: nat| 1 <= j <= abs@.len() && mk_err(s0, abs@, None, (j - 1) as nat) is None && #[trigger] step_err(s0, abs@, None, j) is Some
+                    implies mk_all(s0, abs@, None, (j - 1) as nat) == s0 && mk_err(s0, abs@, None, abs@.len()) is Some by { lemma_mkdir_err(s0, abs@, None, j); } }
+//@ endins
+pub fn mkdir_p(guard: &mut MemfsGuard, path: &PathBuf) -> (r: RvResult<PathBuf>)
+    requires wf(old(guard).st()),
+             spec_abs(old(guard).st().cwd, path.comps()) is Some ==> no_link_prefix(old(guard).st(), spec_abs(old(guard).st().cwd, path.comps())->Some_0),
+    ensures
+        wf(final(guard).st()),                                                                               //@ clause mkdir_p.wf_preserved [C03]
+        r is Err ==> final(guard).st() == old(guard).st(),                                                   //@ clause mkdir_p.failure_atomic [C01]
+        ({
+            let s0 = old(guard).st();
+            let a = spec_abs(s0.cwd, path.comps());
+            &&& a is None ==> r is Err
+            &&& (a is Some && r is Ok) ==> r->Ok_0@ == a->Some_0 && r->Ok_0.abs_clean()
+                    && final(guard).st() == mk_all(s0, a->Some_0, None, a->Some_0.len())                    //@ clause mkdir_p.creates_missing_components_mode_0o40755 [C01]
+            &&& (a is Some) ==> (r is Ok) == (mk_err(s0, a->Some_0, None, a->Some_0.len()) is None)          //@ clause mkdir_p.errors [C01]
+        }),
+//@ body
+
+//@ item mkdir_m file=src/sys/fs/memfs/vfs.rs block="impl VirtualFileSystem for Memfs" fn=mkdir_m props=C01,C03,C05,C11,C12
+//@ rw R11 1 ⟦let mut guard = self.write_guard();⟧ => ⟦⟧
+//@ rw R11 1 ⟦self._abs(&guard, path)?⟧ => ⟦_abs(guard, path)?⟧
+//@ rw R11 1 ⟦self._mkdir_m(&mut guard, &abs, Some(mode))?;⟧ => ⟦_mkdir_m(guard, &abs, Some(mode))?;⟧
+//@ ins after ⟦_abs(guard, path)?;⟧
+        let ghost s0 = guard.st();
+        proof { assert forall|j: nat| 1 <= j <= abs@.len() && mk_err(s0, abs@, Some(mode), (j - 1) as nat) is None && #[trigger] step_err(s0, abs@, Some(mode), j) is Some
+                    implies mk_all(s0, abs@, Some(mode), (j - 1) as nat) == s0 && mk_err(s0, abs@, Some(mode), abs@.len()) is Some by { lemma_mkdir_err(s0, abs@, Some(mode), j); } }
+//@ endins
+pub fn mkdir_m(guard: &mut MemfsGuard, path: &PathBuf, mode: u32) -> (r: RvResult<PathBuf>)
+    requires wf(old(guard).st()),
+             spec_abs(old(guard).st().cwd, path.comps()) is Some ==> no_link_prefix(old(guard).st(), spec_abs(old(guard).st().cwd, path.comps())->Some_0),
+    ensures
+        wf(final(guard).st()),                                                                               //@ clause mkdir_m.wf_preserved [C03]
+        r is Err ==> final(guard).st() == old(guard).st(),                                                   //@ clause mkdir_m.failure_atomic [C01]
+        ({
+            let s0 = old(guard).st();
+            let a = spec_abs(s0.cwd, path.comps());
+            &&& a is None ==> r is Err
+            &&& (a is Some && r is Ok) ==> r->Ok_0@ == a->Some_0 && r->Ok_0.abs_clean()
+                    && final(guard).st() == mk_all(s0, a->Some_0, Some(mode), a->Some_0.len())              //@ clause mkdir_m.creates_missing_components_with_mode [C01,C11]
+            &&& (a is Some) ==> (r is Ok) == (mk_err(s0, a->Some_0, Some(mode), a->Some_0.len()) is None)
         }),
 //@ body
